@@ -27,10 +27,10 @@ var coarseAssumption = "actor-level exploration: thread switches between message
 
 var properties = map[string]Prop{
 	"C07": {
-		Parts:       []Part{{Harness: "c07"}},
+		Parts:       []Part{{Harness: "c07"}, {Harness: "c07net"}},
 		Level:       "model_checking",
 		QuickBudget: 150, ThoroughBudget: 1500,
-		Rule:        "all strings over {Start, Stop, Stop(0), cancel} up to length 3 (4 thorough) on three actor trees, explored over message-level schedules incl. the Stop(0)-timer race; plus pairs of such strings on two threads explored at sync/atomic granularity up to the preemption bound; oracle: linearizable w.r.t. the ready->started->stopped machine, every call returns, clean stop leaves no registered actor and no thread; distinct_nontrivial = distinct result vectors per scenario",
+		Rule:        "all strings over {Start, Stop, Stop(0), cancel} up to length 3 (4 thorough) on three actor trees, explored over message-level schedules incl. the Stop(0)-timer race; plus pairs of such strings on two threads explored at sync/atomic granularity up to the preemption bound; oracle: linearizable w.r.t. the ready->started->stopped machine, every call returns, clean stop leaves no registered actor and no thread; plus (c07net) Stop / context-cancel of a System with remoting next to a peer on the in-memory network: listener bound or in its bind back-off loop x connections none/outbound/inbound/both x peer up/stopped/silently gone, Stop must return nil before its timeout, every actor reported terminated, no thread left; distinct_nontrivial = distinct result vectors per scenario",
 		Assumptions: schedAssumptions,
 	},
 	"C08": {
